@@ -240,7 +240,7 @@ def d4(ctx, F):
             if okall:
                 return "D6: every caller (%d) reaches send_batch only after matching self.batch as Some" % len(callers)
         return None
-    sites = panics.analyse(ctx, bodies, "C03.D4.no-config-panic", extra_rules=[send_batch_unwrap])
+    sites = panics.analyse(ctx, bodies, "C03.D4.no-config-panic", extra_rules=[send_batch_unwrap], F=F)
     ctx.floor("C03.D4.sites", len(sites), 2)
 
 
